@@ -54,7 +54,7 @@ pub enum Preflight {
 /// them - specification program first, then the program; tau*, replace_placeholders, completion,
 /// then the formulas left to right - with the fixpoint loop bounded.  Returns the first event.
 /// Only meaningful when `decompose` reaches the translations (validation passed).
-/// The empty completed definitions appended for missing output predicates (since /repo <COMMIT-F17>)
+/// The empty completed definitions appended for missing output predicates (since /repo 70e6ace)
 /// are left out: `p(V..) <-> #false` is a fixpoint of the portfolio (no panic, no further pass),
 /// so they never are the first event.
 pub fn preflight(task: &ExternalEquivalenceTask) -> Preflight {
